@@ -266,6 +266,17 @@ Theorem C24_substring_panic_only_char_boundary :
 Proof. exact substring_panic_only_char_boundary. Qed.
 Print Assumptions C24_substring_panic_only_char_boundary.
 
+
+(** exact characterisation of the panicking calls *)
+Theorem C24_substring_panic_iff :
+  forall (p : profile) (s : list Z) (start l : Z) (x : panic),
+    str_ok s -> i64_ok start -> i64_ok l ->
+    (substring p [VVarchar s; VInteger start; VInteger l] = Panic x <->
+     x = PCharBoundary /\ start_index start < len s /\ 0 < l /\
+     is_char_boundary s (start_index start) && is_char_boundary s (Z.min (start_index start + l) (len s)) = false).
+Proof. exact substring3_panic_iff. Qed.
+Print Assumptions C24_substring_panic_iff.
+
 (** on ASCII text it never panics and returns the requested window *)
 Theorem C24_substring_no_panic_ascii :
   forall (p : profile) (s : list Z) (start l : Z),
